@@ -60,5 +60,18 @@ fn main() {
         }
     }
     rep.extra.insert("wall_ms".into(), t0.elapsed().as_millis() as u64);
-    std::process::exit(rep.finish());
+    // After any violation the harness itself has leaked the (possibly inconsistent) map on
+    // purpose. Leave without running exit handlers, so that a leak detector does not charge
+    // that deliberate leak to the crate.
+    let harness_leaked = !rep.violations.is_empty() || !rep.also.is_empty() || !rep.harness_errors.is_empty();
+    let code = rep.finish();
+    if harness_leaked && !cfg!(miri) {
+        use std::io::Write as _;
+        let _ = std::io::stdout().flush();
+        extern "C" {
+            fn _exit(code: i32) -> !;
+        }
+        unsafe { _exit(code) }
+    }
+    std::process::exit(code);
 }
